@@ -64,6 +64,4 @@ let nats l = List.map nat_of_int l
 let ints l = List.map int_of_nat l
 let zs l = List.map z_of_int l
 
-let tensor_out_z (t : int tensor) = [ZL (ints t.shape); ZL t.data]
-let tensor_out_f (t : float tensor) = [ZL (ints t.shape); FL t.data]
 
